@@ -421,7 +421,8 @@ class SwiftTypesBackend(SwiftBaseBackend):
             list_nsnumber_type = _nsnumber_type_table.get(list_data_type.__class__)
 
             if not is_user_defined_type(list_data_type) and not list_nsnumber_type:
-                value = '(arg'
+                # No conversion needed; mirrors _swift_union_arg_to_objc.
+                return '(arg)'
             else:
                 value = '{}.map {}'.format(value,
                                            prefix)
